@@ -55,11 +55,11 @@ fn main() {
     let args = parse_args();
     let mut rng = Rng::new(args.seed);
     let thorough = args.tier == "thorough";
-    let mut cases = Cases::new("From V Require Import Base.Util C20.Model C20.Corr.", "case", "agree", "holds", 600);
+    let mut cases = Cases::new("From V Require Import Base.Util C20.Model C20.Corr.", "case", "agree", "holds", if thorough { 4000 } else { 600 });
     let mut distinct: HashSet<String> = HashSet::new();
     let mut stats = json!({});
     // 1. exhaustive absolute pairs
-    let depth = if thorough { 4 } else { 3 };
+    let depth = if thorough { 5 } else { 3 };
     let paths = all_paths(&["a", "b", ".", ".."], depth, true);
     let mut n_ex = 0u64; let mut n_guard_ok = 0u64;
     for a in &paths { for b in &paths {
